@@ -152,6 +152,7 @@ const (
 	spec_GenType  = 1
 	spec_GenAlias = 2
 	spec_Deferred = 3
+	spec_Rendered = 4 // SnippetWriter.Render: a snippet handed to a file's writer (Gen: the writer, Obj: the snippet)
 )
 
 // spec_callMark(): len(spec_fx()) at the moment user code was most recently invoked (ghost): relates the two logs in time.
